@@ -80,7 +80,7 @@ impl<'reg: 'rc, 'rc> RenderContext<'reg, 'rc> {
             current_template: None,
             root_template,
             disable_escape: false,
-            trailing_newline: false,
+            trailing_newline: true,
             content_produced: false,
             indent_before_write: false,
             indent_string: None,
